@@ -158,6 +158,10 @@ class Builder(object):
         from .ordmap import OrdMap
         return OrdMap.symbolic(self.ctx, name)
 
+    def gcode_table(self):
+        from .framework import GcodeTable
+        return GcodeTable(self.interp.program, self.ctx)
+
     def plugin_manager(self):
         from .framework import PluginManager
         return PluginManager()
